@@ -261,6 +261,8 @@ class LazyLocalImage(pydyf.Object):
 
 class SVGImage:
     def __init__(self, tree, base_url, url_fetcher, context):
+        if tree.tag.split('}', 1)[-1] != 'svg':
+            raise ValueError(f'Root element of SVG image is {tree.tag!r}')
         self._svg = SVG(tree, base_url, url_fetcher)
         self._base_url = base_url
         self._url_fetcher = url_fetcher
